@@ -260,10 +260,23 @@ impl<'a> SendLastStateProofProcess<'a> {
                         if old_last_headers.is_empty() {
                             new_last_headers
                         } else {
+                            // The request may have started below the proved header (at one of
+                            // the stored last n headers): the new headers then overlap the old
+                            // ones, which must not be remembered twice.
+                            let first_new_number =
+                                new_last_headers.first().map(|header| header.number());
+                            let old_last_headers = old_last_headers
+                                .iter()
+                                .filter(|header| {
+                                    first_new_number
+                                        .map(|number| header.number() < number)
+                                        .unwrap_or(true)
+                                })
+                                .collect::<Vec<_>>();
                             let required_count = last_n_blocks - last_n_count;
                             let old_last_headers_len = old_last_headers.len();
                             old_last_headers
-                                .iter()
+                                .into_iter()
                                 .skip(old_last_headers_len.saturating_sub(required_count))
                                 .map(ToOwned::to_owned)
                                 .chain(new_last_headers)
